@@ -20,6 +20,7 @@ C12-c every filesystem reader rejects on its format's magic: a comparison with t
 C12-d FAT12/FAT16 thresholds: Create and Read of one package reject the same cluster-count intervals, and the FAT12 and FAT16 acceptance intervals are adjacent and disjoint (4085, 65525).
 C12-e writer magic = reader magic at the same offset (byte-layout extraction, see codec rules).
 C12-f recognition is position-independent: in the six filesystem readers no rejection (an error return) is decided by a condition that depends on the start offset of the range (other than a sign test of start itself) - the property quantifies over whole disk and any partition.
+C12-g stale signatures: in Disk.CreateFilesystem every feasible path to one of the six filesystem Create calls passes a device write of zero bytes at the start of the target range that covers the places where the supported formats keep what identifies them (FAT boot sector and squashfs superblock at 0, ext4 superblock at 1024..2048, first ISO9660 volume descriptor at 32768..34816: at least 34816 bytes, or the whole range if it is smaller). The Create functions write only their own structures, so without it the previous filesystem's signature survives and GetFilesystem reports the old type (the property quantifies over stale bytes of a previous different filesystem).
 Not covered: equality of the cluster-count formulas in Create and Read; whether fat32.Read rejects every FAT16 image.`)
 }
 
@@ -29,6 +30,8 @@ func runC12(w *World, r *Report) {
 	c12Magic(w, r)
 	c12Thresholds(w, r)
 	c12PositionIndependent(w, r)
+	c12EraseBeforeCreate(w, r)
+	r.Floor("C12-g", r.countRule("C12-g"), 6)
 	r.Floor("C12-f", r.countRule("C12-f"), 6)
 	r.Floor("C12-a", r.countRule("C12-a"), 3)
 	r.Floor("C12-b", r.countRule("C12-b"), 13)
@@ -421,9 +424,11 @@ const ivInf = int64(1) << 40
 
 func c12Thresholds(w *World, r *Report) {
 	rounding := map[string]bool{}
+	var noFAT []string
 	intervals := func(fn *ssa.Function) []rejectIv {
 		var out []rejectIv
 		rounding = map[string]bool{}
+		noFAT = nil
 		for _, b := range fn.Blocks {
 			iff, ok := lastInstr(b).(*ssa.If)
 			if !ok {
@@ -458,10 +463,20 @@ func c12Thresholds(w *World, r *Report) {
 			default:
 				continue
 			}
+			rejects := true
 			if blockLeadsToErrorReturn(b.Succs[0], 0) {
 				out = append(out, trueIv)
 			} else if blockLeadsToErrorReturn(b.Succs[1], 0) {
 				out = append(out, falseIv)
+			} else {
+				rejects = false
+			}
+			if rejects {
+				for _, q := range qs {
+					if !accountsForFATArea(w, fn, q) {
+						noFAT = append(noFAT, w.relFile(instrPos(iff)))
+					}
+				}
 			}
 		}
 		sort.Slice(out, func(i, j int) bool { return out[i].lo < out[j].lo })
@@ -485,8 +500,12 @@ func c12Thresholds(w *World, r *Report) {
 		cr, rd := w.Func(pkg, "Create"), w.Func(pkg, "Read")
 		cl, ch := accept(intervals(cr))
 		cRound := joinSorted(rounding)
+		cNoFAT := noFAT
 		rl, rh := accept(intervals(rd))
 		rRound := joinSorted(rounding)
+		bad := append(append([]string{}, cNoFAT...), noFAT...)
+		r.Check(len(bad) == 0, "C12-d", pkg, "thresholds are applied to the cluster count of the data area behind the FATs", w.relFile(rd.Pos()), "",
+			fmt.Sprintf("a FAT-type threshold is compared with a cluster count whose sector total does not subtract the FAT area (sectors per FAT) at %s: the FAT specification (and the sibling Create/Read) count the clusters that remain after the FATs, so sizes near the threshold are created as one type and recognised as the other", strings.Join(bad, ", ")))
 		r.Check(cRound == rRound && cRound == "floor", "C12-d", pkg, "Create and Read count clusters with the same rounding", w.relFile(rd.Pos()), cRound,
 			fmt.Sprintf("Create compares a cluster count rounded %q, Read one rounded %q: a volume with a partial trailing cluster at the threshold is created as one FAT type and read as the other (the FAT specification counts whole clusters)", cRound, rRound))
 		r.Check(cl == rl && ch == rh && (cl > 0 || ch < ivInf), "C12-d", pkg, "Create and Read accept the same cluster-count interval", w.relFile(rd.Pos()),
@@ -647,4 +666,321 @@ func ivStr(v int64) string {
 		return "inf"
 	}
 	return fmt.Sprint(v)
+}
+
+// accountsForFATArea: the dividend of the cluster-count quotient q subtracts a term that depends on the sectors-per-FAT
+// quantity: the BPB field SectorsPerFat (readers), or the value the function stores into that field (creators).
+func accountsForFATArea(w *World, fn *ssa.Function, q *ssa.BinOp) bool {
+	targets := map[ssa.Value]bool{}
+	targetCells := map[ssa.Value]bool{}
+	for _, f := range withClosures(fn) {
+		allInstrs(f, func(ins ssa.Instruction) {
+			st, ok := ins.(*ssa.Store)
+			if !ok {
+				return
+			}
+			if fa, ok := st.Addr.(*ssa.FieldAddr); ok {
+				if _, fld, _, ok := fieldOfAddr(fa); ok && fld.Name() == "SectorsPerFat" {
+					targets[st.Val] = true
+					targets[stripConv(st.Val)] = true
+					if ld, ok := stripConv(st.Val).(*ssa.UnOp); ok && ld.Op == token.MUL {
+						targetCells[ld.X] = true // the value lives in a local cell (captured variable)
+					}
+				}
+			}
+		})
+	}
+	seen := map[ssa.Value]bool{}
+	var reaches func(v ssa.Value, depth int) bool
+	reaches = func(v ssa.Value, depth int) bool {
+		if v == nil || depth > 14 || seen[v] {
+			return false
+		}
+		seen[v] = true
+		if targets[v] || targets[stripConv(v)] {
+			return true
+		}
+		switch x := v.(type) {
+		case *ssa.UnOp:
+			if x.Op == token.MUL {
+				if targetCells[x.X] {
+					return true
+				}
+				if fa, ok := x.X.(*ssa.FieldAddr); ok {
+					if _, fld, _, ok := fieldOfAddr(fa); ok && fld.Name() == "SectorsPerFat" {
+						return true
+					}
+				}
+				// a local cell: the values stored to it
+				for _, st := range cellStores(x.X) {
+					if reaches(st.Val, depth+1) {
+						return true
+					}
+				}
+				return false
+			}
+		case *ssa.Field:
+			if _, fld, _, ok := fieldOfAddr(x); ok && fld.Name() == "SectorsPerFat" {
+				return true
+			}
+		case *ssa.Parameter:
+			// a helper's parameter: the actuals at its call sites in fn
+			h := x.Parent()
+			idx := -1
+			for i, p := range h.Params {
+				if p == x {
+					idx = i
+				}
+			}
+			for _, f := range withClosures(fn) {
+				for _, c := range calls(f, false, func(c ssa.CallInstruction) bool { return c.Common().StaticCallee() == h }) {
+					if idx >= 0 && idx < len(c.Common().Args) && reaches(c.Common().Args[idx], depth+1) {
+						return true
+					}
+				}
+			}
+			return false
+		case *ssa.Call:
+			if h := x.Call.StaticCallee(); h != nil && w.fnSet[h] && h.Blocks != nil {
+				for _, ret := range returnsOf(h) {
+					for _, rv := range ret.Results {
+						if reaches(rv, depth+1) {
+							return true
+						}
+					}
+				}
+			}
+			for _, a := range x.Call.Args {
+				if reaches(a, depth+1) {
+					return true
+				}
+			}
+			return false
+		}
+		if ins, ok := v.(ssa.Instruction); ok {
+			for _, op := range ins.Operands(nil) {
+				if op != nil && *op != nil && reaches(*op, depth+1) {
+					return true
+				}
+			}
+		}
+		return false
+	}
+	for _, t := range addends(q.X) {
+		if !t.neg {
+			continue
+		}
+		seen = map[ssa.Value]bool{}
+		if reaches(t.v, 0) {
+			return true
+		}
+	}
+	return false
+}
+
+// signatureWindow: spec facts, not a copy of the source: FAT boot sector [0,512), squashfs superblock [0,96),
+// ext4 superblock [1024,2048), first ISO9660 volume descriptor [32768,34816).
+const signatureWindow = 34816
+
+// zeroWriteAt: fn (or a module callee, two levels) contains a WriteAt whose data is a freshly made, never written
+// byte slice of at least signatureWindow bytes (or min(size, >= signatureWindow)); returns the index of the parameter
+// of fn that the write's offset is, -1 if none.
+func zeroWriteAt(w *World, fn *ssa.Function, depth int) (bool, int) {
+	if fn == nil || fn.Blocks == nil || depth > 2 {
+		return false, -1
+	}
+	lenOK := func(v ssa.Value) bool {
+		v = stripConv(v)
+		if c, ok := constInt(v); ok {
+			return c >= signatureWindow
+		}
+		if ph, ok := v.(*ssa.Phi); ok {
+			nConst := 0
+			for _, e := range ph.Edges {
+				if c, ok := constInt(stripConv(e)); ok {
+					if c < signatureWindow {
+						return false
+					}
+					nConst++
+				}
+			}
+			return nConst > 0
+		}
+		if c, ok := v.(*ssa.Call); ok {
+			if bi, ok := c.Call.Value.(*ssa.Builtin); ok && bi.Name() == "min" {
+				good := false
+				for _, a := range c.Call.Args {
+					if k, ok := constInt(stripConv(a)); ok {
+						if k < signatureWindow {
+							return false
+						}
+						good = true
+					}
+				}
+				return good
+			}
+		}
+		return false
+	}
+	paramIdx := func(v ssa.Value) int {
+		v = unspillParam(stripConv(v))
+		for i, p := range fn.Params {
+			if ssa.Value(p) == v {
+				return i
+			}
+		}
+		return -1
+	}
+	for _, cc := range calls(fn, false, isWriteAt) {
+		args := argsOf(cc)
+		if len(args) != 2 {
+			continue
+		}
+		mk, ok := stripConv(args[0]).(*ssa.MakeSlice)
+		if !ok || !lenOK(mk.Len) {
+			continue
+		}
+		clean := true
+		for _, ref := range *mk.Referrers() {
+			if ref != cc.(ssa.Instruction) {
+				if _, isDbg := ref.(*ssa.DebugRef); !isDbg {
+					clean = false
+				}
+			}
+		}
+		if !clean {
+			continue
+		}
+		return true, paramIdx(args[1])
+	}
+	for _, cc := range calls(fn, false, func(c ssa.CallInstruction) bool {
+		g := c.Common().StaticCallee()
+		return g != nil && w.fnSet[g] && g.Blocks != nil
+	}) {
+		g := cc.Common().StaticCallee()
+		if ok, pi := zeroWriteAt(w, g, depth+1); ok && pi >= 0 && pi < len(cc.Common().Args) {
+			return true, paramIdx(cc.Common().Args[pi])
+		}
+	}
+	return false, -1
+}
+
+func c12EraseBeforeCreate(w *World, r *Report) {
+	cf := w.Method("disk", "Disk", "CreateFilesystem")
+	name := fnName(cf)
+	isFSCreate := func(c ssa.CallInstruction) bool {
+		g := c.Common().StaticCallee()
+		if g == nil || g.Name() != "Create" || g.Signature.Recv() != nil {
+			return false
+		}
+		for _, p := range fsPkgs {
+			if w.pkgOf(g) == p {
+				return true
+			}
+		}
+		return false
+	}
+	creates := calls(cf, false, isFSCreate)
+	if len(creates) == 0 {
+		r.Undecided("C12-g", name, "filesystem Create calls", w.relFile(cf.Pos()), "CreateFilesystem does not call the filesystem packages' Create functions directly")
+		return
+	}
+	// wipe events: a zero WriteAt in CreateFilesystem itself, or a call of a helper that performs one at the offset it is given
+	wipeBlocks := map[*ssa.BasicBlock]ssa.Value{} // block -> the offset the wipe starts at
+	for _, cc := range calls(cf, false, func(c ssa.CallInstruction) bool { return true }) {
+		if isWriteAt(cc) {
+			continue
+		}
+		g := cc.Common().StaticCallee()
+		if g == nil || !w.fnSet[g] || g.Blocks == nil || isFSCreate(cc) {
+			continue
+		}
+		if ok, pi := zeroWriteAt(w, g, 0); ok && pi >= 0 && pi < len(cc.Common().Args) {
+			if c, isCall := cc.(*ssa.Call); isCall {
+				if chk, _ := errorIsChecked(c); !chk {
+					continue
+				}
+			}
+			wipeBlocks[cc.Block()] = cc.Common().Args[pi]
+		}
+	}
+	if ok, _ := zeroWriteAt(w, cf, 3); ok { // direct WriteAt in CreateFilesystem (depth 3: do not descend)
+		for _, cc := range calls(cf, false, isWriteAt) {
+			if mk, isMk := stripConv(argsOf(cc)[0]).(*ssa.MakeSlice); isMk && mk != nil {
+				wipeBlocks[cc.Block()] = argsOf(cc)[1]
+			}
+		}
+	}
+	sameStart := func(a, b ssa.Value) bool {
+		a, b = stripConv(a), stripConv(b)
+		if a == b {
+			return true
+		}
+		return strings.Join(w.prov(a, provOpts{}).rootStrings(), ",") == strings.Join(w.prov(b, provOpts{}).rootStrings(), ",")
+	}
+	for _, cc := range creates {
+		g := cc.Common().StaticCallee()
+		// the value the dispatch compares, and the constant that leads to this call
+		type constraint struct {
+			v ssa.Value
+			k int64
+		}
+		var cons []constraint
+		for _, b := range cf.Blocks {
+			iff, ok := lastInstr(b).(*ssa.If)
+			if !ok {
+				continue
+			}
+			x, y, eqIdx, ok := eqEdge(iff)
+			if !ok {
+				continue
+			}
+			if k, isC := constInt(y); isC && edgeDominates(b, eqIdx, cc.Block()) {
+				cons = append(cons, constraint{x, k})
+			}
+		}
+		sameVal := func(a, b ssa.Value) bool {
+			a, b = stripConv(a), stripConv(b)
+			return a == b || sameBase(a, b) || sameLoad(a, b)
+		}
+		startArg := ssa.Value(nil)
+		if args := cc.Common().Args; len(args) >= 3 {
+			startArg = args[2]
+		}
+		refuse := func(b *ssa.BasicBlock, idx int) bool {
+			if off, isWipe := wipeBlocks[b]; isWipe && (startArg == nil || sameStart(off, startArg)) {
+				return true
+			}
+			iff, ok := lastInstr(b).(*ssa.If)
+			if !ok {
+				return false
+			}
+			x, y, eqIdx, ok := eqEdge(iff)
+			if !ok {
+				return false
+			}
+			k2, isC := constInt(y)
+			if !isC {
+				return false
+			}
+			for _, c := range cons {
+				if sameVal(c.v, x) {
+					if k2 == c.k && idx != eqIdx {
+						return true // the value equals k on this path: the "different" edge is infeasible
+					}
+					if k2 != c.k && idx == eqIdx {
+						return true
+					}
+				}
+			}
+			return false
+		}
+		reach := reachableAvoiding(cf, refuse)
+		ok := !reach[cc.Block()]
+		if _, wipeHere := wipeBlocks[cc.Block()]; wipeHere {
+			ok = true
+		}
+		r.Check(ok, "C12-g", name, "old signatures erased before "+w.pkgOf(g)+".Create", w.relFile(cc.Pos()), "",
+			fmt.Sprintf("%s.Create can be reached without zeroing the first %d bytes of the target range: Create writes only its own structures, so the boot sector / superblock / volume descriptor of an earlier filesystem of another type survives and GetFilesystem reports the old type", w.pkgOf(g), signatureWindow))
+	}
 }
